@@ -90,7 +90,7 @@ def native_checks(tier, seed):
         ex = min(ss, key=len)
         script = f'''
 import sys
-sys.path.insert(0, "/repo")
+sys.path.insert(0, __import__("os").environ.get("PVC_REPO", "/repo"))
 import ptera.selector as sel
 from ptera.tags import tag
 def f(x):
